@@ -14,8 +14,8 @@ import (
 
 func init() {
 	register("C12", &propDef{
-		Run: checkC12,
-		Explanation: "Static decision of the structural clauses of C12. (1) Wiring table: at the hsrv.New call in main each flag's value reaches the parameter of the same meaning (listen-address→addr, serve-files-from→fdir, callback-template→tmplf, tls-certificate-cache→certFile, ipv6-one-liners→printIPv6, one-shell→oneShell), New stores oneShell into Server.oneShell and nothing else writes that field. (2) Who closes the listener: Close on the server's listener is called only on New's error paths and in the event consumer below the 'connected' case and the true edge of Server.oneShell; by C04's tables the connected event exists only for a fully attached shell. The event loop returns only on cancellation or a closed event channel, never from an event case, so a half-attached attempt which comes and goes cannot stop it watching. (3) Clean exit: serveHTTP turns net.ErrClosed into ErrOneShellClosed under a test of Server.oneShell itself; Shutdown follows Serve's return; in main every non-zero return after the subsystems end lies below the false edge of errors.Is(err, hsrv.ErrOneShellClosed). (4) The callback help is re-printed on the disconnected event only when oneShell is false (C04.event-switch). Refusal of TCP connects by the kernel, traffic through the surviving shell and exit timing are outside.",
+		Run:         checkC12,
+		Explanation: "Static decision of the structural clauses of C12. (1) Wiring table: at the hsrv.New call in main each flag's value reaches the parameter of the same meaning (listen-address→addr, serve-files-from→fdir, callback-template→tmplf, tls-certificate-cache→certFile, ipv6-one-liners→printIPv6, one-shell→oneShell), New stores oneShell into Server.oneShell and nothing else writes that field. (2) Who closes the listener: Close on the server's listener is called only on New's error paths and in the event consumer below the 'connected' case and the true edge of Server.oneShell; by C04's tables the connected event exists only for a fully attached shell. The event loop returns only on cancellation or a closed event channel, never from an event case, so a half-attached attempt which comes and goes cannot stop it watching. (3) Clean exit: serveHTTP turns net.ErrClosed into ErrOneShellClosed under a test of Server.oneShell itself; Shutdown follows Serve's return; in main every non-zero return after the subsystems end lies below the false edge of errors.Is(err, hsrv.ErrOneShellClosed). (4) The callback help is re-printed on the disconnected event only when oneShell is false (C04.event-switch). Refusal of TCP connects by the kernel, traffic through the surviving shell and exit timing are outside. Also: http.Server.BaseContext returns serveHTTP's own context (or a child cancelled only by serveHTTP's own defer / after Shutdown); no unclosed File() duplicate of a listening socket exists in the module.",
 		Assumptions: []string{"closing a net.Listener makes Accept fail with net.ErrClosed and leaves established connections alone; http.Server.Shutdown waits for active handlers"},
 	})
 }
@@ -25,6 +25,39 @@ func checkC12(p *Prog, r *Report) {
 	rClose := r.Rule("who-closes-listener", "the listener is closed only on New's error paths and on the connected event under oneShell; the event loop keeps watching")
 	rExit := r.Rule("clean-exit", "net.ErrClosed becomes ErrOneShellClosed under oneShell itself, Shutdown follows Serve, and main treats ErrOneShellClosed as success")
 
+	/* No second handle on the listening socket. */
+	{
+		n := 0
+		for _, fn := range p.Funcs() {
+			eachInstr(fn, func(i ssa.Instruction) {
+				cc := callCommon(i)
+				if nil == cc {
+					return
+				}
+				switch name := calleeName(cc); name {
+				case "(*net.TCPListener).File", "(*net.UnixListener).File", "net.FileListener", "(*net.TCPConn).File":
+					/* A copy which is closed again in the same function is fine. */
+					closed := false
+					if call, ok := i.(*ssa.Call); ok {
+						f0 := valueOrExtract(call, 0)
+						eachInstr(fn, func(j ssa.Instruction) {
+							if c2 := callCommon(j); nil != c2 && "(*os.File).Close" == calleeName(c2) && 0 != len(c2.Args) && resolveCell(c2.Args[0]) == f0 {
+								closed = true
+							}
+						})
+					}
+					if closed {
+						return
+					}
+					n++
+					rClose.Bad(fnName(fn)+":duplicate-descriptor", posOf(i), "%s duplicates the socket's descriptor: closing the listener leaves the copy listening, so the port keeps accepting connections after the one shell", name)
+				}
+			})
+		}
+		if 0 == n {
+			rClose.OK("listener:single-handle", token.NoPos, "no File()/FileListener duplicate of a listening socket is left open anywhere in the module")
+		}
+	}
 	checkC12ReqCtx(p, r, r.Rule("shell-undisturbed", "closing the listener does not cancel the attached shell: request contexts derive from the server's own context and nothing cancels them when Serve returns"))
 
 	rm := p.Func("", "", "rmain")
